@@ -580,3 +580,7 @@ Proof.
   rewrite (budget_same_under_floor x (nul_to_fffd x)); [reflexivity| |exact L].
   apply (le_floor_trans _ _ (ltac:(rewrite length_nul_to_fffd; lia) : (List.length x <= List.length (nul_to_fffd x))%nat) L).
 Qed.
+
+Lemma known_above_floor_iff x :
+  known_above_floor ref_budget_floor x = false <-> (N.of_nat (List.length x) <= ref_budget_floor)%N.
+Proof. unfold known_above_floor. rewrite N.ltb_ge. reflexivity. Qed.
